@@ -128,8 +128,8 @@ def coverage_schedules(rng):
     # views/entry and entry/entry positions
     for (a, b) in [(K_MUT, K_REF), (K_REF, K_MUT), (K_REF, K_REF), (K_OPTMUT, K_OPT), (K_OPT, K_OPT), (K_MUT, K_MUT)]:
         c, d = rng.sample(range(len(COMPS)), 2)
-        out.append(("viewentry", [Sys(False, [(a, c)], ("none",), [], []), Sys(False, [(K_ID, None)], ("none",), [], [(b, c)]),
-                                  Sys(False, [(K_REF, d)], ("none",), [], [(a, c)])]))
+        out.append(("viewentry", [Sys(False, [(a, c)], ("none",), [], []), Sys(rng.random() < 0.4, [(K_ID, None)], ("none",), [], [(b, c)]),
+                                  Sys(rng.random() < 0.4, [(K_REF, d)], ("none",), [], [(a, c)])]))
     # one task viewing a component immutably through both its views and its entry views, next to
     # other readers of that component: nothing conflicts, everything must share a stage
     for (a, b) in [(K_REF, K_REF), (K_REF, K_OPT), (K_OPT, K_REF), (K_OPT, K_OPT)]:
@@ -146,14 +146,25 @@ def coverage_schedules(rng):
     # immutable pairs in entry/entry and entry/views positions
     for (a, b) in [(K_REF, K_OPT), (K_OPT, K_REF)]:
         c, d, e = rng.sample(range(len(COMPS)), 3)
-        out.append(("entryentry", [Sys(False, [(K_MUT, d)], ("none",), [], [(a, c)]), Sys(False, [(K_MUT, e)], ("none",), [], [(b, c)]),
+        out.append(("entryentry", [Sys(rng.random() < 0.5, [(K_MUT, d)], ("none",), [], [(a, c)]), Sys(rng.random() < 0.5, [(K_MUT, e)], ("none",), [], [(b, c)]),
                                    Sys(rng.random() < 0.5, [(b, c)], ("none",), [], [])]))
+    # a (par) system whose entry views reach tables that none of its query views match
+    for par in (True, False):
+        c, d, e = rng.sample(range(len(COMPS)), 3)
+        out.append(("entryonly", [Sys(par, [(K_MUT, d)], ("has", e), [], [(K_MUT, c)]), Sys(False, [(K_REF, c)], ("not", ("has", d)), [], []),
+                                  Sys(not par, [(K_OPTMUT, c)], ("none",), [], [])]))
     # resources
     for (a, b) in [(K_MUT, K_REF), (K_REF, K_REF), (K_MUT, K_MUT), (K_REF, K_MUT)]:
         r = rng.randrange(len(RES))
         c, d = rng.sample(range(len(COMPS)), 2)
         out.append(("resources", [Sys(False, [(K_MUT, c)], ("none",), [(a, r)], []), Sys(rng.random() < 0.5, [(K_MUT, d)], ("none",), [(b, r)], []),
                                   Sys(False, [(K_REF, c)], ("none",), [(K_REF, r)], [])]))
+    # a next-stage task accepted early on an archetype of the running stage, then a later candidate
+    # that conflicts with the running stage exactly there (three disjoint mutable sets in one table)
+    for par in (False, True):
+        a, b, c = rng.sample(range(len(COMPS)), 3)
+        out.append(("addonthenconflict", [Sys(False, [(K_MUT, a), (K_MUT, c)], ("none",), [], []), Sys(False, [(K_MUT, a)], ("none",), [], []),
+                                          Sys(par, [(K_MUT, b)], ("none",), [], []), Sys(False, [(K_MUT, c)], ("none",), [], [])]))
     # a resource held by a task that is not the last of its stage, wanted by the next stage
     for (a, b, holder) in [(K_MUT, K_MUT, 0), (K_MUT, K_REF, 1), (K_REF, K_MUT, 0)]:
         r = rng.randrange(len(RES))
